@@ -9,6 +9,16 @@ TIMEOUTS = ("tokio::time::timeout", "tokio::time::timeout::timeout", "tokio::tim
 PASS_THROUGH = ("std::future::IntoFuture::into_future", "std::pin::Pin::new_unchecked", "std::pin::Pin::new", "std::boxed::Box::pin", "std::boxed::Box::new")
 
 
+def is_deferral(name, t=None):
+    """an external callee that hands work to another task / thread / queue (or runs several futures concurrently): whatever
+    is passed to it is no longer ordered with what the caller does next"""
+    n = strip_generics(name)
+    last = n.split("::")[-1]
+    if last.startswith("spawn") or last in ("join_all", "try_join_all", "join", "try_join", "select_all", "for_each_concurrent", "buffer_unordered", "buffered"):
+        return not n.startswith("std::iter") and not n.startswith("std::slice") and not n.startswith("std::path") and not n.startswith("std::str")
+    return "JoinSet" in n or "FuturesUnordered" in n or "futures_unordered" in n or "::mpsc::" in n or "::oneshot::" in n or "::broadcast::" in n or "crossbeam_channel" in n or n.startswith("rayon::")
+
+
 def is_socket_read(name):
     """a call that waits for bytes (or readiness) from the peer"""
     if name.startswith("tokio::io::AsyncReadExt::") or name.startswith("tokio::io::AsyncBufReadExt::"):
@@ -227,17 +237,24 @@ def plumbing(ctx):
     from rules.storefacts import field_of
 
     f = ctx.facts
-    out = {"server": None, "client_new_args": None, "client": None, "timeout_durations": [], "listen_args": [], "sem_new_args": []}
+    out = {"server": None, "client_new_args": None, "client": None, "clients": [], "timeout_durations": [], "listen_args": [], "sem_new_args": []}
     nb = f.one(SERVER + "::new")
-    servers = [p.ret for p in Interp(f).run(nb, [P("config"), P("store")]) if isinstance(p.ret, Struct)]
-    if len(servers) != 1:
+
+    def distinct(vals):
+        seen, res = set(), []
+        for v in vals:
+            k = repr(tform(v))
+            if k not in seen:
+                seen.add(k)
+                res.append(v)
+        return res
+
+    # a constructor may have several paths (a recycled or a fresh buffer, ...): every value it can return is followed
+    servers = distinct(p.ret for p in Interp(f).run(nb, [P("config"), P("store")]) if isinstance(p.ret, Struct))
+    if not servers or len(servers) > 4:
         ctx._cache["conntask.plumbing"] = out
         return out
-    S = servers[0]
-    out["server"] = S
-    for x in atoms(tform(S)):
-        if isinstance(x, tuple) and x and x[0] == "call" and x[1] == "tokio::sync::Semaphore::new":
-            out["sem_new_args"].append(x[3][0] if x[3] else None)
+    out["server"] = servers[0]
     RUN = SERVER + "::run::{closure#0}"
     rb = f.one(RUN)
 
@@ -246,25 +263,37 @@ def plumbing(ctx):
             return "opaque"
         return "inline"
 
-    caps = [S if c_["name"] == "self" else P(c_["name"]) for c_ in rb.captures] or [S]
     cn_args = []
-    for p in Interp(f, loop_bound=1, policy=pol).run(rb, [ClosureV(RUN, caps, "coroutine"), P("cx")]):
-        for e in p.events:
-            if e.kind == "call" and e.name == CLIENT + "::new":
-                cn_args.append(e.args)
-            if e.kind == "call" and e.name.endswith("Socket::listen"):
-                out["listen_args"].append(e.args[1] if len(e.args) > 1 else None)
+    for S in servers:
+        for x in atoms(tform(S)):
+            if isinstance(x, tuple) and x and x[0] == "call" and x[1] == "tokio::sync::Semaphore::new":
+                out["sem_new_args"].append(x[3][0] if x[3] else None)
+        caps = [S if c_["name"] == "self" else P(c_["name"]) for c_ in rb.captures] or [S]
+        for p in Interp(f, loop_bound=1, policy=pol).run(rb, [ClosureV(RUN, caps, "coroutine"), P("cx")]):
+            for e in p.events:
+                if e.kind == "call" and e.name == CLIENT + "::new":
+                    cn_args.append(e.args)
+                if e.kind == "call" and e.name.endswith("Socket::listen"):
+                    out["listen_args"].append(e.args[1] if len(e.args) > 1 else None)
     if not cn_args:
         ctx._cache["conntask.plumbing"] = out
         return out
     out["client_new_args"] = cn_args[0]
     cb = f.one(CLIENT + "::new")
-    clients = [p.ret for p in Interp(f, models=BUF_MODELS).run(cb, list(cn_args[0])) if isinstance(p.ret, Struct)]
-    if len(clients) != 1:
+    clients = []
+    seen_args = set()
+    for a in cn_args:
+        k = repr([tform(x) for x in a])
+        if k in seen_args:
+            continue
+        seen_args.add(k)
+        clients += [p.ret for p in Interp(f, models=BUF_MODELS).run(cb, list(a)) if isinstance(p.ret, Struct)]
+    clients = distinct(clients)
+    if not clients or len(clients) > 8:
         ctx._cache["conntask.plumbing"] = out
         return out
-    C = clients[0]
-    out["client"] = C
+    out["client"] = clients[0]
+    out["clients"] = clients
     HL = HANDLE + "::{closure#0}"
     hb = f.one(HL)
 
@@ -273,9 +302,10 @@ def plumbing(ctx):
             return "opaque"
         return "inline"
 
-    for p in Interp(f, loop_bound=1, policy=pol2).run(hb, [ClosureV(HL, [C], "coroutine"), P("cx")]):
-        for e in p.events:
-            if e.kind == "call" and strip_generics(e.name) in TIMEOUTS:
-                out["timeout_durations"].append(e.args[0])
+    for C in clients:
+        for p in Interp(f, loop_bound=1, policy=pol2).run(hb, [ClosureV(HL, [C], "coroutine"), P("cx")]):
+            for e in p.events:
+                if e.kind == "call" and strip_generics(e.name) in TIMEOUTS:
+                    out["timeout_durations"].append(e.args[0])
     ctx._cache["conntask.plumbing"] = out
     return out
